@@ -1,8 +1,11 @@
-\* exhaustive configuration of the design model: both strategies, two consecutive runs on a fresh or a
-\* shared strategy object, max_iter = 3 (Minimize_deep.cfg: one run, max_iter = 4), cost levels 0..2
+\* Exhaustive configuration of the design model of smooth::minimize: max_iter = 4, both strategies, every
+\* combination of the abstract environment outcomes, cost levels 0..2, assumptions A1-A3 in force.
+\* Minimize_shared.cfg: two consecutive runs on a fresh or shared strategy object (max_iter = 2; thorough tier 3).
+\* Minimize_live.cfg: the temporal property Termination on a small instance.  The driver also writes mutant
+\* configurations (Variant /= "coded", or an assumption dropped) that TLC must reject.
 CONSTANTS
-  MaxIter = 2
-  Runs = 2
+  MaxIter = 4
+  Runs = 1
   Levels = 2
   Kinds = {"ceres", "disney"}
   Variant = "coded"
@@ -18,5 +21,7 @@ INVARIANT Monotone
 INVARIANT StratInv
 INVARIANT Persist
 INVARIANT FreshInit
-PROPERTY Termination
+INVARIANT NotStuck
+PROPERTY Decreases
+PROPERTY ReduceRestart
 CHECK_DEADLOCK FALSE
